@@ -36,6 +36,7 @@ func (r Result) String() string { return [...]string{"unsat", "sat", "unknown"}[
 type scope struct {
 	terms []int
 	ufs   []string
+	lines []string
 }
 
 type Solver struct {
@@ -53,6 +54,7 @@ type Solver struct {
 	Queries int
 	Time    time.Duration
 	Errors  int
+	FallbackQueries int
 	log     io.Writer
 	timeout int // ms
 	dead    bool
@@ -120,6 +122,76 @@ func (s *Solver) send(line string) {
 	io.WriteString(s.in, line+"\n")
 }
 
+// sendCtx sends a context-building command (declaration, definition,
+// assertion) and records it so the context can be replayed into a fallback
+// solver.
+func (s *Solver) sendCtx(line string) {
+	sc := &s.scopes[len(s.scopes)-1]
+	sc.lines = append(sc.lines, line)
+	s.send(line)
+}
+
+// Script returns the current assertion stack as a standalone SMT-LIB script.
+func (s *Solver) Script() string {
+	var sb strings.Builder
+	for _, sc := range s.scopes {
+		for _, l := range sc.lines {
+			sb.WriteString(l)
+			sb.WriteByte('\n')
+		}
+	}
+	return sb.String()
+}
+
+// Fallback runs the current context one-shot in other solvers (cvc5, then
+// z3 5.1). If valueNames is non-empty and the answer is sat, the values are
+// returned as the raw get-value text.
+func (s *Solver) Fallback(timeoutMs int, valueNames []string) (Result, string, string) {
+	script := s.Script() + "(check-sat)\n"
+	if len(valueNames) > 0 {
+		script += "(get-value (" + strings.Join(valueNames, " ") + "))\n"
+	}
+	f, err := os.CreateTemp("", "symgo-fb-*.smt2")
+	if err != nil {
+		return Unknown, "", ""
+	}
+	defer os.Remove(f.Name())
+	f.WriteString(script)
+	f.Close()
+	type cand struct {
+		name string
+		args []string
+	}
+	cands := []cand{
+		{"cvc5-1.0", []string{"cvc5", "--lang=smt2", "--produce-models", fmt.Sprintf("--tlimit=%d", timeoutMs), f.Name()}},
+		{"z3-5.1.0", []string{"z3-new", "-smt2", fmt.Sprintf("-t:%d", timeoutMs), f.Name()}},
+	}
+	for _, c := range cands {
+		start := time.Now()
+		ctx := exec.Command(c.args[0], c.args[1:]...)
+		timer := time.AfterFunc(time.Duration(timeoutMs+5000)*time.Millisecond, func() { ctx.Process.Kill() })
+		out, _ := ctx.CombinedOutput()
+		timer.Stop()
+		s.Time += time.Since(start)
+		s.FallbackQueries++
+		txt := string(out)
+		if strings.Contains(txt, "(error") {
+			continue
+		}
+		lines := strings.Split(txt, "\n")
+		for i, l := range lines {
+			l = strings.TrimSpace(l)
+			if l == "unsat" {
+				return Unsat, "", c.name
+			}
+			if l == "sat" {
+				return Sat, strings.Join(lines[i+1:], " "), c.name
+			}
+		}
+	}
+	return Unknown, "", ""
+}
+
 func (s *Solver) Push() {
 	s.send("(push 1)")
 	s.scopes = append(s.scopes, scope{})
@@ -166,7 +238,7 @@ func (s *Solver) define(t *Term) {
 	}
 	switch t.Op {
 	case OpVar:
-		s.send(fmt.Sprintf("(declare-const %s %s)", smtName(t.Name), sortStr(t.W)))
+		s.sendCtx(fmt.Sprintf("(declare-const %s %s)", smtName(t.Name), sortStr(t.W)))
 	case OpUF:
 		if !s.ufDecl[t.Name] {
 			d := s.ts.UFs[t.Name]
@@ -174,7 +246,7 @@ func (s *Solver) define(t *Term) {
 			for _, w := range d.ArgW {
 				as = append(as, sortStr(w))
 			}
-			s.send(fmt.Sprintf("(declare-fun %s (%s) %s)", smtName(t.Name), strings.Join(as, " "), sortStr(d.ResW)))
+			s.sendCtx(fmt.Sprintf("(declare-fun %s (%s) %s)", smtName(t.Name), strings.Join(as, " "), sortStr(d.ResW)))
 			s.ufDecl[t.Name] = true
 			sc := &s.scopes[len(s.scopes)-1]
 			sc.ufs = append(sc.ufs, t.Name)
@@ -184,20 +256,20 @@ func (s *Solver) define(t *Term) {
 			as = append(as, tname(a))
 		}
 		if len(as) == 0 {
-			s.send(fmt.Sprintf("(define-fun t%d () %s %s)", t.ID, sortStr(t.W), smtName(t.Name)))
+			s.sendCtx(fmt.Sprintf("(define-fun t%d () %s %s)", t.ID, sortStr(t.W), smtName(t.Name)))
 		} else {
-			s.send(fmt.Sprintf("(define-fun t%d () %s (%s %s))", t.ID, sortStr(t.W), smtName(t.Name), strings.Join(as, " ")))
+			s.sendCtx(fmt.Sprintf("(define-fun t%d () %s (%s %s))", t.ID, sortStr(t.W), smtName(t.Name), strings.Join(as, " ")))
 		}
 	case OpExtract:
-		s.send(fmt.Sprintf("(define-fun t%d () %s ((_ extract %d %d) %s))", t.ID, sortStr(t.W), t.Hi, t.Lo, tname(t.Args[0])))
+		s.sendCtx(fmt.Sprintf("(define-fun t%d () %s ((_ extract %d %d) %s))", t.ID, sortStr(t.W), t.Hi, t.Lo, tname(t.Args[0])))
 	case OpSExt:
-		s.send(fmt.Sprintf("(define-fun t%d () %s ((_ sign_extend %d) %s))", t.ID, sortStr(t.W), t.W-t.Args[0].W, tname(t.Args[0])))
+		s.sendCtx(fmt.Sprintf("(define-fun t%d () %s ((_ sign_extend %d) %s))", t.ID, sortStr(t.W), t.W-t.Args[0].W, tname(t.Args[0])))
 	default:
 		var as []string
 		for _, a := range t.Args {
 			as = append(as, tname(a))
 		}
-		s.send(fmt.Sprintf("(define-fun t%d () %s (%s %s))", t.ID, sortStr(t.W), opSMT[t.Op], strings.Join(as, " ")))
+		s.sendCtx(fmt.Sprintf("(define-fun t%d () %s (%s %s))", t.ID, sortStr(t.W), opSMT[t.Op], strings.Join(as, " ")))
 	}
 	s.mark(t.ID)
 	if t.Op == OpUF && s.Axioms != nil {
@@ -211,7 +283,7 @@ func (s *Solver) flushAxioms() {
 		s.pendingAx = nil
 		for _, a := range ax {
 			s.define(a)
-			s.send(fmt.Sprintf("(assert %s)", tname(a)))
+			s.sendCtx(fmt.Sprintf("(assert %s)", tname(a)))
 		}
 	}
 }
@@ -222,7 +294,7 @@ func (s *Solver) Assert(t *Term) {
 	}
 	s.define(t)
 	s.flushAxioms()
-	s.send(fmt.Sprintf("(assert %s)", tname(t)))
+	s.sendCtx(fmt.Sprintf("(assert %s)", tname(t)))
 }
 
 const endMarker = "<<END>>"
